@@ -16,6 +16,8 @@ from vlib.core import SubCheck, Violation
 from pycoin.key.BIP32Node import PublicPrivateMismatchError
 from pycoin.networks.registry import network_codes, network_for_netcode
 
+from gen import subproc
+
 PROPERTY = "C09"
 HARD = R.HARD
 SPELL = ["H", "p", "'"]
@@ -570,4 +572,8 @@ SUBCHECKS = [
                   "subkey(i from a pool of 1-3 indices, hardened?, as_private None/True/False) in generated order with repeats; "
                   "after every op the result == reference and == the same call on a fresh node parsed from the reference text; "
                   "hardened from public must raise. Non-trivial = some (node, index, hardened) asked more than once"),
+    SubCheck("path_nodes_pure_python", subproc.pure_python_variant("checks.c09_bip32", "o_path_nodes"), strategy=s_path_nodes,
+             budget=(64, 4000), nontrivial=nt_path,
+             rule="the path_nodes cases evaluated in a child interpreter started with PYCOIN_NATIVE=none (pure-Python point "
+                  "arithmetic, asserted by the child)"),
 ]
